@@ -1,5 +1,6 @@
 import FluteModel.Drv.Util
 import FluteModel.Partition
+import FluteModel.Admission
 namespace Flute.Drv.Part
 open Flute Flute.Partition
 
@@ -23,34 +24,19 @@ def step (args : List String) : String :=
   | ["fti", _scheme, l, e, z] =>
     match nats? [l, e, z] with
     | some [l, e, z] =>
-      -- e = 0 / z = 0 are rejected by the parsers before the reconstruction
-      if e = 0 ∨ z = 0 then "ERR" else s!"ok {reconstructB32 l e z}"
+      match ftiMaxSbl l e z with
+      | none => "ERR"
+      | some b' => s!"ok {b'}"
     | _ => "bad-op"
   | ["rcv", scheme, _inband, b, l, e] =>
-    -- receiver side of a clean session: the object completes exactly when, for every block, the receiver's source
-    -- block length (`receiverBlockSymbols`, or the wire-borne one for RS under-specified = the sender's count) equals the
-    -- number of source symbols the sender cut for it; then one write per block, of `blockLength` bytes
+    -- receiver side of a clean session: `Partition.cleanSession` (theorem `Props.C07.clean_session_completes`)
     match nats? [scheme, b, l, e] with
     | some [scheme, b, l, e] =>
-      -- RaptorQ / Raptor: the receiver partitions with the B it reconstructs from Z
-      match blockPartitioning b l e with
+      match cleanSession scheme b l e with
       | .error _ => "PANIC"
-      | .ok qs =>
-        let bRx := if scheme = 3 ∨ scheme = 4 then reconstructB32 l e qs.2.2.2 else b
-        match blockPartitioning bRx l e with
-        | .error _ => "PANIC"
-        | .ok (aL, aS, nL, n) =>
-          let snd := senderBlocks qs l e (l + 1) 0 0
-          let agree := snd.length = n ∧ (List.range n).all fun sbn =>
-            let kTx := (snd.getD sbn (0, 0, 0)).1
-            let kRx := if scheme = 2 then kTx else receiverBlockSymbols (aL, aS, nL, n) sbn
-            kTx = kRx
-          if ¬ agree then "ok c0 e1" else
-          let lens := (List.range n).map fun sbn =>
-            match blockLength aL aS nL l e sbn with
-            | .ok v => toString v
-            | .error _ => "PANIC"
-          "ok c1 e0" ++ String.join (lens.map fun x => " " ++ x)
+      | .ok none => "ok c0 e1"
+      | .ok (some lens) =>
+        "ok c1 e0" ++ String.join (lens.map fun x => " " ++ (match x with | .ok v => toString v | .error _ => "PANIC"))
     | _ => "bad-op"
   | ["sbl", b, l, e] =>
     -- RS under-specified: the source block length the sender writes into every payload id of block sbn
@@ -66,12 +52,20 @@ def step (args : List String) : String :=
     if rqp = "rq" ∨ rqp = "rp" then
       match nats? [b, l, e] with
       | some [b, l, e] =>
-        match blockPartitioning b l e with
+        -- `Sender::add_object` → `FileDesc::new` on `Oti::new_raptorq(e, b, 1, 1, 4)` / `Oti::new_raptor(e, b, 1, 1, 4)`:
+        -- the admission model (`Admission.fileDescNew`, tied to the real add_object by engine `toi`, linked by
+        -- Props/AdmissionLink*) decides refusal and the Z written into the scheme-specific info
+        let oti : Flute.Admission.Oti :=
+          { fec := if rqp = "rq" then .raptorq else .raptor, inst := 0, maxSbl := b, esl := e, parity := 1,
+            scheme := some (if rqp = "rq" then .raptorq 0 1 4 else .raptor 0 1 4) }
+        match Flute.Admission.fileDescNew oti none l with
         | .error _ => "PANIC"
-        | .ok (aL, _, _, n) =>
-          -- FileDesc::new: the block count must fit the Z field (u8 RaptorQ / u16 Raptor) and a block the code's K_max
-          if (rqp = "rq" ∧ (n > 255 ∨ aL > 56403)) ∨ (rqp = "rp" ∧ (n > 65535 ∨ aL > 8192)) then "ERR"
-          else s!"ok {reconstructB l e n} {max n 1}"
+        | .ok (.error _) => "ERR"
+        | .ok (.ok o) =>
+          match o.scheme with
+          | some (.raptorq z _ _) => s!"ok {reconstructB l e z} {z}"
+          | some (.raptor z _ _) => s!"ok {reconstructB l e z} {z}"
+          | _ => "bad-op"
       | _ => "bad-op"
     else if rqp = "snd" then
       match nats? [b, l, e] with
@@ -79,9 +73,7 @@ def step (args : List String) : String :=
         match blockPartitioning b l e with
         | .error _ => "PANIC"
         | .ok q =>
-          if l = 0 then "ok" else
-          let bl := senderBlocks q l e (l + 1) 0 0
-          "ok" ++ String.join (bl.map fun (k, s, en) => s!" {k}:{en - s}:{byteSum s en}")
+          "ok" ++ String.join ((senderBlocksOf q l e).map fun (k, s, en) => s!" {k}:{en - s}:{byteSum s en}")
       | _ => "bad-op"
     else "bad-op"
   | _ => "bad-op"
